@@ -664,21 +664,29 @@ bool Interpret::getAssignment() const {
 }
 
 namespace { // Helper for get-value command
+// A symbol that was written |quoted| is printed quoted again: its value may not be readable as a simple symbol
+void printAstSymbol(ASTNode const & symbolNode) {
+    char const * name = symbolNode.getValue();
+    if (symbolNode.getType() == QSYM_T) {
+        std::cout << '|' << name << '|';
+    } else {
+        std::cout << name;
+    }
+}
+
 void printAstTermNode(ASTNode const & astNode) {
     ASTType t = astNode.getType();
     if (t == TERM_T) {
         const char* name = (**(astNode.children->begin())).getValue();
         std::cout << name;
     } else if (t == QID_T) {
-            ASTNode const * symbolNode = (*(astNode.children->begin()));
-            char const * name = symbolNode->getValue();
-            std::cout << name;
+            printAstSymbol(**(astNode.children->begin()));
     } else if ( t == LQID_T ) {
         // Multi-argument term
         auto node_iter = astNode.children->begin();
-        const char* name = (**node_iter).getValue(); node_iter++;
         std::cout << "(";
-        std::cout << name << " ";
+        printAstSymbol(**node_iter); node_iter++;
+        std::cout << " ";
         bool first = true;
         for (; node_iter != astNode.children->end(); node_iter++) {
             if (not first) {
